@@ -33,6 +33,7 @@ func genC09(t *rapid.T) CacheCase {
 	o.MaxTuples = 20
 	w := gen.AnyWorld(t, o)
 	c := CacheCase{World: w, Cfg: genCacheCfg(t, false, true)}
+	c.Cfg.Shared = rapid.IntRange(0, 3).Draw(t, "shared") > 0 // mostly on; off isolates the iterator caches
 	n := rapid.IntRange(4, 12).Draw(t, "nOps")
 	var prev []m.Request
 	for i := 0; i < n; i++ {
@@ -40,7 +41,9 @@ func genC09(t *rapid.T) CacheCase {
 		case k < 4: // faulted check followed by the same request clean
 			r := closureRequest(t, w, o, prev)
 			prev = append(prev, r)
-			c.Ops = append(c.Ops, QOp{Kind: "check", Req: r, At: rapid.IntRange(1, 6).Draw(t, "at"), Fail: rapid.Bool().Draw(t, "fail")})
+			fop := QOp{Kind: "check", Req: r, At: rapid.IntRange(1, 6).Draw(t, "at"), Fail: rapid.Bool().Draw(t, "fail")}
+			fop.FailCtx = fop.Fail && rapid.Bool().Draw(t, "failCtx")
+			c.Ops = append(c.Ops, fop)
 			if rapid.Bool().Draw(t, "yieldBetween") {
 				c.Ops = append(c.Ops, QOp{Kind: "yield"})
 			}
